@@ -11,7 +11,7 @@ SPEC = {
     "jobs": [Job("chain", "verifsim", "^TestVerifC06$", shards=(8, 16), timeout=(900, 3600))],
     "floors": {"replay_class:right-after-inclusion": 50, "replay_class:later-block": 50, "replay_class:after-epoch-change": 50,
                "replay_class:after-reorg-not-reverting": 10, "replay_class:after-epoch-change+account-cleared": 1, "history_txs": 1000,
-               "replay_block_path": 500},
+               "replay_block_path": 500, "foreign_epoch_class:future-epoch": 200, "foreign_epoch_class:past-epoch": 50},
     "parallel": 16,
     "assumptions": ["consensus config V12"],
 }
